@@ -60,6 +60,12 @@ structure Verdict where
 def Verdict.render (id : String) (v : Verdict) : String :=
   s!"{id} {v.kind} {if v.nontrivial then 1 else 0} {if v.classes.isEmpty then "-" else ",".intercalate v.classes} | {(v.detail.replace "\n" " ").replace "\r" " "}"
 
+/-- boundary classes of a record flavour (harness `with_bedlike!`: kind = f % 10, variant = f / 10) -/
+def flavourClasses (f : Nat) : List String :=
+  (if f % 10 != 0 then ["record-type-not-GenomicRange"] else []) ++
+  (if f % 10 != 0 && f % 10 < 8 && (f / 10) % 3 == 1 then ["strand-forward"] else []) ++
+  (if f % 10 != 0 && f % 10 < 8 && (f / 10) % 3 == 2 then ["strand-reverse"] else [])
+
 /-- lexicographic order on lists of naturals, used to canonicalise multisets -/
 def natListLe : List Nat → List Nat → Bool
   | [], _ => true
